@@ -71,6 +71,7 @@ type Step struct {
 	K       string
 	V       int64
 	Reuse   bool   // put/upd/del: then read through result.Session(&gorm.Session{NewDB: true}) of the handle the write returned
+	Via     int    // 0: the step goes through the block's own handle; n: through the handle of the n-th enclosing block (a captured variable – the same database transaction)
 	Name    string // save point name
 	Child   *Body
 	Swallow bool // block: the parent ignores the child's error and goes on (otherwise it returns it)
@@ -121,6 +122,15 @@ func b2i(b bool) int {
 }
 
 func (s Step) render(sb *strings.Builder) {
+	via := ""
+	if s.Via > 0 {
+		via = fmt.Sprintf("@^%d", s.Via)
+	}
+	switch s.Op {
+	case opBlock:
+	default:
+		defer sb.WriteString(via)
+	}
 	switch s.Op {
 	case opPut, opRawPut, opUpd:
 		fmt.Fprintf(sb, "%s(%s,%d)", s.Op, s.K, s.V)
@@ -137,7 +147,7 @@ func (s Step) render(sb *strings.Builder) {
 	case opSP, opRBTo:
 		fmt.Fprintf(sb, "%s(%s)", s.Op, s.Name)
 	case opBlock:
-		sb.WriteString("T")
+		sb.WriteString("T" + via)
 		s.Child.render(sb)
 		if s.Swallow {
 			sb.WriteString("/swallow")
@@ -341,6 +351,14 @@ type runner struct {
 	faultHit  string
 	nStmt     int
 	harnessEr string
+
+	handles []*gorm.DB     // handles of the blocks that are running, outermost first
+	active  []*activeBlock // Transaction blocks that are running
+}
+
+type activeBlock struct {
+	from        *gorm.DB // the handle Transaction was called on
+	sameInnerOK bool     // a deeper block started from the same handle has completed successfully
 }
 
 func clone(m map[string]int64) map[string]int64 {
@@ -508,10 +526,23 @@ func (x *runner) primitive(h *gorm.DB, st Step, where string) error {
 
 // runSteps is the function body of block b running on handle h. It returns
 // what the block function returns and panics with *panicVal for outcome panic.
-func (x *runner) runSteps(h *gorm.DB, b *Body, fr *frame) error {
+func (x *runner) runSteps(own *gorm.DB, b *Body, fr *frame) error {
 	where := fmt.Sprintf("block #%d", b.ID)
+	x.handles = append(x.handles, own)
+	depth := len(x.handles)
+	defer func() { x.handles = x.handles[:depth-1] }() // a handle is never used after its block has ended
 	for i := range b.Steps {
 		st := b.Steps[i]
+		h := own
+		if st.Via > 0 {
+			if st.Via >= depth {
+				x.harnessEr = "step through a handle that does not exist"
+				continue
+			}
+			h = x.handles[depth-1-st.Via]
+			x.class("handle:captured-enclosing")
+			x.class("handle:captured-enclosing:" + st.Op)
+		}
 		switch st.Op {
 		case opSP:
 			x.class("op:savepoint")
@@ -590,6 +621,29 @@ func (x *runner) callBlock(h *gorm.DB, child *Body, root bool) (int, error, inte
 		x.maxDepth = x.depth
 	}
 	defer func() { x.depth-- }()
+	me := &activeBlock{from: h}
+	var sameAbove []*activeBlock
+	for _, a := range x.active {
+		if a.from == h {
+			sameAbove = append(sameAbove, a)
+		}
+	}
+	if len(sameAbove) > 0 {
+		x.class("shape:block-started-from-the-handle-an-enclosing-block-was-started-from")
+	}
+	x.active = append(x.active, me)
+	nActive := len(x.active)
+	defer func() {
+		x.active = x.active[:nActive-1]
+	}()
+	failedAfterInner := func() {
+		if me.sameInnerOK && !root {
+			x.class("shape:block-fails-after-same-handle-inner-block-succeeded")
+			if !x.c.Cfg.NoNest {
+				x.class("shape:block-fails-after-same-handle-inner-block-succeeded(savepoints)")
+			}
+		}
+	}
 	var (
 		entered     int
 		fcRet       error
@@ -656,6 +710,7 @@ func (x *runner) callBlock(h *gorm.DB, child *Body, root bool) (int, error, inte
 		}
 		return 1, cerr, nil
 	case fcPanicked:
+		failedAfterInner()
 		x.noteFailure()
 		if fired {
 			x.harnessEr = "fault fired after a panicking block function"
@@ -672,6 +727,7 @@ func (x *runner) callBlock(h *gorm.DB, child *Body, root bool) (int, error, inte
 		}
 		return 2, nil, outPanic
 	case fcRet != nil:
+		failedAfterInner()
 		x.noteFailure()
 		if fired {
 			x.harnessEr = "fault fired after a failing block function"
@@ -714,6 +770,9 @@ func (x *runner) callBlock(h *gorm.DB, child *Body, root bool) (int, error, inte
 	if cerr != nil {
 		x.violate("%s: the block function returned nil and no fault was injected, but Transaction returned %q", where, cerr)
 		return 1, cerr, nil
+	}
+	for _, a := range sameAbove {
+		a.sameInnerOK = true
 	}
 	return 0, nil, nil
 }
@@ -976,6 +1035,7 @@ func uniform(rt *rapid.T, label string, n int) int {
 }
 
 type gen struct {
+	startIdx []int // per running block (outermost first): index of the handle it was started from (-1: the root handle)
 	rt       *rapid.T
 	budget   int
 	nextID   int
@@ -1001,6 +1061,30 @@ func (g *gen) primitive(top bool) Step {
 	return st
 }
 
+// via picks the handle a step of a block at the given depth goes through: 0 =
+// the block's own, n = the n-th enclosing block's (all of them are the same
+// database transaction; the root handle is a different connection and is never
+// used inside a transaction).
+func (g *gen) via(depth int, child bool) int {
+	if depth < 2 {
+		return 0
+	}
+	r := uniform(g.rt, "via", 12)
+	if child {
+		// often the very handle this block was itself started from (a unit-of-work
+		// handle carried around and used for every nested block)
+		if s := g.startIdx[len(g.startIdx)-1]; s >= 0 && r < 4 {
+			return depth - 1 - s
+		}
+		if r < 7 {
+			return 0
+		}
+	} else if r < 8 {
+		return 0
+	}
+	return 1 + uniform(g.rt, "up", depth-1)
+}
+
 // body generates the function of a block at the given depth (1 = outermost).
 func (g *gen) body(depth int, manual bool) *Body {
 	b := &Body{ID: g.nextID}
@@ -1019,10 +1103,15 @@ func (g *gen) body(depth int, manual bool) *Body {
 		r := uniform(g.rt, "kind", 100)
 		switch {
 		case r < primBelow || (r < blockBelow && depth >= g.maxDepth):
-			b.Steps = append(b.Steps, g.primitive(false))
+			st := g.primitive(false)
+			st.Via = g.via(depth, false)
+			b.Steps = append(b.Steps, st)
 		case r < blockBelow:
+			v := g.via(depth, true)
+			g.startIdx = append(g.startIdx, depth-1-v)
 			ch := g.body(depth+1, false)
-			b.Steps = append(b.Steps, Step{Op: opBlock, Child: ch,
+			g.startIdx = g.startIdx[:len(g.startIdx)-1]
+			b.Steps = append(b.Steps, Step{Op: opBlock, Child: ch, Via: v,
 				Swallow: uniform(g.rt, "swallow", 3) < 2,
 				Recover: rapid.Bool().Draw(g.rt, "recover")})
 		case r < 86:
@@ -1031,7 +1120,7 @@ func (g *gen) body(depth int, manual bool) *Body {
 			// not gorm's); within a block a name may repeat: the latest one counts
 			nm := fmt.Sprintf("s%d%s", b.ID, []string{"x", "y"}[uniform(g.rt, "spname", 2)])
 			names = append(names, nm)
-			b.Steps = append(b.Steps, Step{Op: opSP, Name: nm})
+			b.Steps = append(b.Steps, Step{Op: opSP, Name: nm, Via: g.via(depth, false)})
 		case len(names) > 0:
 			nm := rapid.SampledFrom(names).Draw(g.rt, "rbname")
 			// ROLLBACK TO keeps the named save point and drops the later ones
@@ -1041,9 +1130,11 @@ func (g *gen) body(depth int, manual bool) *Body {
 					break
 				}
 			}
-			b.Steps = append(b.Steps, Step{Op: opRBTo, Name: nm})
+			b.Steps = append(b.Steps, Step{Op: opRBTo, Name: nm, Via: g.via(depth, false)})
 		default:
-			b.Steps = append(b.Steps, g.primitive(false))
+			st := g.primitive(false)
+			st.Via = g.via(depth, false)
+			b.Steps = append(b.Steps, st)
 		}
 	}
 	if manual {
@@ -1073,8 +1164,10 @@ func genCase(rt *rapid.T) Case {
 		r := uniform(rt, "topkind", 100)
 		switch {
 		case r < 65:
+			g.startIdx = []int{-1}
 			c.Top.Steps = append(c.Top.Steps, Step{Op: opBlock, Child: g.body(1, false)})
 		case r < 82:
+			g.startIdx = []int{-1}
 			c.Top.Steps = append(c.Top.Steps, Step{Op: opManual, Child: g.body(1, true)})
 		default:
 			c.Top.Steps = append(c.Top.Steps, g.primitive(true))
@@ -1113,12 +1206,30 @@ func genCase(rt *rapid.T) Case {
 	} else {
 		c.Fault = FaultPlan{Kind: kind, K: uniform(rt, "k", count)}
 	}
+	if c.Fault.Kind == fSavepoint {
+		// DB.SavePoint reports its error on the handle it is called on (like Commit and
+		// Rollback it returns that handle). What a still running enclosing block may do with
+		// its handle after a SavePoint called on it failed is not stated by the property, so
+		// where a SAVEPOINT can fail the manual SavePoint steps use the block's own handle.
+		ownSavepoints(&c.Top)
+	}
 	return c
+}
+
+func ownSavepoints(b *Body) {
+	for i := range b.Steps {
+		if b.Steps[i].Op == opSP {
+			b.Steps[i].Via = 0
+		}
+		if b.Steps[i].Child != nil {
+			ownSavepoints(b.Steps[i].Child)
+		}
+	}
 }
 
 const rule = "C04: programs on a key→value table: 1-3 top-level steps (db.Transaction tree of depth ≤4, manual Begin…Commit/Rollback, single write/read), " +
 	"block bodies of put/rawput/upd/del/read/SavePoint/RollbackTo/child-block steps ending in return nil | return error | panic, parents returning or swallowing a child's error " +
-	"and optionally recovering its panic; configuration bits PrepareStmt, DisableNestedTransaction, SkipDefaultTransaction; fault plan none or the k-th BEGIN/COMMIT/SAVEPOINT/statement/PREPARE " +
+	"and optionally recovering its panic, every step inside a block going through the block's own handle or the captured handle of any enclosing block (same transaction); configuration bits PrepareStmt, DisableNestedTransaction, SkipDefaultTransaction; fault plan none or the k-th BEGIN/COMMIT/SAVEPOINT/statement/PREPARE " +
 	"driver call fails (never ROLLBACK / ROLLBACK TO); non-trivial = nesting depth ≥2 reached and at least one failure (block returning an error or panicking, fired fault) with successful writes both before and after it; " +
 	"distinct = configuration + fault plan + initial rows + program text"
 
